@@ -338,14 +338,18 @@ def check(prog, res, tier):
                                               f'must stay raw, other processors (ICC ...) must keep working', e.node))
             if p.outcome == 'return':
                 v = p.value
-                if not (isinstance(v, MutCopy) and v.base.path.endswith("['bit_config']") and 'global' not in v.base.tags):
-                    fails.append(definite(f'get_config returns {v!r}, not the bit configuration of a private copy'))
+                if isinstance(v, PyLit) and 'global' in v.tags or isinstance(v, MutCopy) and 'global' in v.base.tags:
+                    fails.append(definite(f'get_config returns the packaged configuration itself ({v!r}), not a private copy'))
+                elif not (isinstance(v, MutCopy) and v.base.path.endswith("['bit_config']")):
+                    # built in another way (comprehensions, dict(...)): not followed by this rule
+                    fails.append(soft(f'get_config returns {v!r}: not recognised as the bit configuration of a private copy'))
             return fails
         ob = runs_g.judge('C19.b', 'get_config returns a private copy of the packaged bit configuration with exactly the PDS processors removed',
                           func_where(gfi), "if field_config.get('field_processor') == 'PDS': del field_config['field_processor']", chk_g)
         removed = any(e.kind == 'delitem' or (e.kind == 'dict-pop' and isinstance(e.data['obj'], GenericChild))
                       for p in runs_g.inv for e in p.events)
-        if ob.verdict == PROVED and not removed:
+        plain_copy = all(isinstance(p.value, MutCopy) for p in runs_g.inv if p.outcome == 'return')
+        if ob.verdict == PROVED and not removed and plain_copy:
             ob.verdict, ob.detail, ob.witness = REFUTED, 'no processor is removed: PDS carriers would be expanded and re-packed during conversion', {'deletes': 0}
         res.add(ob)
 
